@@ -119,6 +119,36 @@ def run(tier, seed, work, replay):
                     nip += 1
             extra.append(t2)
     traces = traces + extra
+    # two more refinements below the specification's grain, applied to every behaviour that has a second-factor step
+    # carrying a session cookie: (a) a decoy - another browser's session cookie sent under the same name BEFORE the real
+    # one (the specification ignores it: the request is the last cookie's); (b) the profile store refusing writes
+    # around the step (a granted one-time value must still be consumed, so a refused write must refuse the step)
+    UP = {"VipOTP", "PushPoll", "Totp", "U2FFinish", "BotpUse", "OktaPoll", "OktaOTP"}
+    extra = []
+    ndecoy = nro = 0
+    for t in traces:
+        idx = [k for k, st in enumerate(t["steps"]) if st["name"] in UP and st["args"].get("cred", {}).get("slot", "none") != "none"]
+        if not idx:
+            continue
+        t2 = copy.deepcopy(t)
+        t2["origin"] = t["origin"] + "+decoy"
+        for k in idx:
+            c = t2["steps"][k]["args"]["cred"]
+            c["decoy"] = [s for s in ("s1", "s2", "s3") if s != c["slot"]][(k + seed) % 2]
+            ndecoy += 1
+        extra.append(t2)
+        bk = [k for k in idx if t["steps"][k]["name"] in ("BotpUse", "Totp", "U2FFinish")]
+        if bk and not t["origin"].startswith("happy"):
+            t3 = copy.deepcopy(t)
+            t3["origin"] = t["origin"] + "+readonly"
+            k = bk[0]
+            t3["steps"] = t3["steps"][:k] + [{"name": "StoreReadOnly", "args": {"on": True}}, t3["steps"][k],
+                                             {"name": "StoreReadOnly", "args": {"on": False}}] + t3["steps"][k:]
+            nro += 1
+            extra.append(t3)
+    traces = traces + extra
+    cov["steps_with_decoy_cookie"] = ndecoy
+    cov["behaviours_with_read_only_store"] = nro
     cov["steps_with_ip_restricted_certificate"] = nip
     E.log("%d behaviours (%d attack traces from negative controls)" % (len(traces), len(attacks)))
     cpath = work.path("cases.ndjson")
